@@ -44,6 +44,7 @@ class Ctx:
         self._solver = None
         self.stats = {"forks": 0, "prune_checks": 0}
         self.declared_raises = None
+        self.cvx = []  # cvxpy problems solved during execution (see cvxmodel)
         self._abs_cache = {}
 
     def __enter__(self):
@@ -159,6 +160,11 @@ def clone_val(v, memo):
                 na = _np.ndarray(shape=v.a.shape, dtype=object, buffer=nroot, offset=off, strides=v.a.strides)
             else:
                 raise EngineError("fortran-ordered root buffer")
+        if type(v) is not SArr and hasattr(v, "clone_as"):
+            r = v.clone_as(na)
+            memo[k] = (r, v)
+            v.clone_finish(r, memo)
+            return r
         r = SArr(na, v.kind, v.origin)
         memo[k] = (r, v)
         return r
@@ -333,6 +339,7 @@ class Exec:
         self.max_paths = max_paths
         self.depth = 0
         from . import libcalls
+        from . import cvxmodel  # noqa: F401 (registers the cvxpy DSL)
 
         self.lib = libcalls
 
@@ -646,6 +653,10 @@ class Exec:
             if r is not NotImplemented:
                 return r
         if isinstance(op, (ast.Is, ast.IsNot)):
+            for x, y in ((a, b), (b, a)):
+                if hasattr(x, "is_none") and y is None:
+                    r = x.is_none()
+                    return r if isinstance(op, ast.Is) else V.lnot(r)
             if a is None or b is None or isinstance(a, bool) or isinstance(b, bool):
                 r = a is b
             elif isinstance(a, SObj) and isinstance(b, SObj):
